@@ -607,6 +607,14 @@ func c08Oracle(c *oracleCtx) {
 		{"Concat", func() any { return NewObject("m", NewList(NewList(1)).Concat(NewList(NewList(2)))) }},
 		{"NewListOf", func() any { return NewListOf(NewObject("a", 1), 2) }},
 		{"deep", func() any { return NewObject("a", NewList(NewObject("b", NewList(NewObject("c", 1))))) }},
+		// derived containers as elements / fields (a clone holds copies of them, never the originals), strings that
+		// are not valid UTF-8 (copied byte for byte)
+		{"derived-in-list", func() any { return NewList(newDList(1, NewObject("a", 1)), newDObject("k", NewList(2)), 3) }},
+		{"derived-in-object", func() any { return NewObject("dl", newDList(1), "do", newDObject("k", 1), "l", NewList(newDDList(5))) }},
+		{"derived-nested", func() any { return NewObject("x", NewList(NewObject("y", newDList(NewList(1))))) }},
+		{"listof-derived", func() any { return NewListOf(newDObject("k", 1), 3) }},
+		{"bad-utf8", func() any { return NewList("a\xffb", "\xc3", "\xed\xa0\x80", NewObject("k", "\xf0\x9f\x98"), "ok") }},
+		{"bad-utf8-obj", func() any { return NewObject("s", "\x80", "l", NewList("\xfe\xff")) }},
 		// the same shapes reached through different operation histories (a cached summary of the content that one
 		// mutator forgets to refresh shows only on such a history)
 		{"hist:insert-mid", func() any { return NewList(1, "x", 2.5).Insert(1, NewList(7)) }},
